@@ -15,10 +15,11 @@ int64_t CDNS::Timestamp::get_time_offset(const Timestamp& reference, uint64_t ti
     if (ticks_per_second == 0)
         throw std::runtime_error("Ticks per second resolution is zero!");
 
-    int64_t ticks = (m_secs * ticks_per_second) + m_ticks;
-    int64_t ref_ticks = (reference.m_secs * ticks_per_second) + reference.m_ticks;
+    // Subtract as unsigned numbers, signed overflow would be undefined behaviour
+    uint64_t ticks = (m_secs * ticks_per_second) + m_ticks;
+    uint64_t ref_ticks = (reference.m_secs * ticks_per_second) + reference.m_ticks;
 
-    return ticks - ref_ticks;
+    return static_cast<int64_t>(ticks - ref_ticks);
 }
 
 void CDNS::Timestamp::add_time_offset(int64_t offset, uint64_t ticks_per_second)
@@ -28,7 +29,11 @@ void CDNS::Timestamp::add_time_offset(int64_t offset, uint64_t ticks_per_second)
 
     int64_t ticks = (m_secs * ticks_per_second) + m_ticks;
 
-    if (-1 * offset > ticks)
+    // INT64_MIN can't be negated
+    if (offset < 0 && (offset == INT64_MIN || -offset > ticks))
+        throw std::runtime_error("Adding offset to Timestamp would create invalid Timestamp!");
+
+    if (offset > 0 && ticks > INT64_MAX - offset)
         throw std::runtime_error("Adding offset to Timestamp would create invalid Timestamp!");
 
     ticks += offset;
